@@ -5,7 +5,8 @@ Correspondence (model vs. real code, same inputs):
   * `SevenZipReader(file)` + `extractall`: parsed reader state, per-folder pack-stream calls, files written —
     on archives of the independent 7z writer (all layouts) and on header-mutated / truncated archives;
   * `_detect_archive_type_optimized` + dispatch of `read_archive`;
-  * the ZIP / TAR / 7z member loops of `read_archive` on archives of zipfile / tarfile / the 7z writer.
+  * the ZIP / TAR / 7z member loops of `read_archive` on archives of zipfile / tarfile / the 7z writer;
+  * sessions (props/c10_history.py): every read of a sequence of reads in one process vs. the model of that archive alone.
 Oracle (search, replay, witnesses): the property statement itself on the real `read_archive`,
 independent of the Lean model: results == concatenation over the visible supported members, in archive
 order, of running the router's extractor on that member's bytes alone with path `archive!/member`.
@@ -23,13 +24,16 @@ import zipfile
 import zlib
 
 from builders import sevenzip_writer as W
+from props import c10_history as H
 from run import Broken, Violation
 
-GEN = ["SevenZip"]
+GEN = ["SevenZip", "ModState"]
 RULE = ("cases = (a) byte strings for the varint / bit-vector readers, (b) 7z files = member set x grouping into folders "
         "x coder per folder x header options, plus header-byte mutations / truncations with CRCs re-sealed, "
         "(c) first-512-byte prefixes for detection, (d) ZIP/TAR/7z archives of generated member sets (documents, dirs, "
-        "empty files, hidden / unsupported / nested-archive names, one corrupt member) run through read_archive; "
+        "empty files, hidden / unsupported / nested-archive names, one corrupt member) run through read_archive, "
+        "(e) sessions = sequences of 2-5 such reads in one process over archives cut from one member pool (shared / edited / renamed / "
+        "failing members, distinct / equal / absent archive paths), consumed sequentially, abandoned after k results or interleaved; "
         "distinct = distinct input bytes; non-trivial = at least one member with data or a non-empty byte string")
 ASSUMPTIONS = [
     "stdlib lzma is a parameter of the model (decoder answers are recorded from the real run); theorems assume decode(encode x) = x",
@@ -38,6 +42,8 @@ ASSUMPTIONS = [
     "str.lower and router.is_supported_file are parameters (is_supported_file is C07's subject)",
     "7z member names are distinct, relative and normalised (a set of files); path confinement of the temp dir is C09's",
     "numbers in generated 7z headers stay below 50000 (larger ones are screened out of the malformed stream, counted)",
+    "process history: the router answers (is_supported_file / get_extractor by base name) do not change during the process and "
+    "configure_archive_extraction is not called between reads; zipfile / tarfile / the 7z reader / tempfile keep no state between calls",
 ]
 TRUSTED = ["harness/builders/sevenzip_writer.py (independent 7z writer after 7zFormat.txt)",
            "S2T/Model/SevenZip.lean and S2T/Model/ArchiveLoop.lean (hand models, tied by this correspondence)",
@@ -968,6 +974,7 @@ def correspondence(ctx):
         _corr_sevenzip(ctx, broken, tmp)
         _corr_writer(ctx, broken, tmp)
         _corr_loops(ctx, broken)
+        H.correspondence(ctx, broken)      # sequences of reads in this one process (shared members, paths, reads in flight)
     return {"broken": broken, "violations": violations}
 
 
@@ -1112,12 +1119,27 @@ def search(ctx, broken):
     known = _open_known_keys()
     out = [v for v in known_witnesses(ctx) if v.key not in known]
     keys = {v.key for v in out}
-    out += [v for v in _oracle_run(ctx, ctx.n(160, 2000), seeds) if v.key not in keys and v.key not in known]
-    return out
+    single = [v for v in _oracle_run(ctx, ctx.n(160, 2000), seeds) if v.key not in keys and v.key not in known]
+    keys |= {v.key for v in single}
+    # process histories: the statement judged on every read of a session, each reported session confirmed in a fresh process
+    sessions = [b.case for b in broken if isinstance(b.case, dict) and b.case.get("kind") == "session"]
+    hist = [v for v in H.oracle_run(ctx, ctx.n(120, 1200), sessions) if v.key not in keys and v.key not in known]
+    # this process has a history (the correspondence ran in it): a single archive that fails HERE but not as the only thing
+    # a fresh process reads is a finding about the history (reported by the session oracle), and its replay file would hold
+    kept = []
+    for v in single[:8]:
+        if H.fails_fresh(v.replay) is not None:
+            kept.append(v)
+        else:
+            ctx.count("search/single-archive-failure-only-after-history")
+    single = kept
+    return out + single + hist
 
 
 def replay(ctx, payload):
     rep = payload.get("replay", {})
+    if rep.get("kind") == "session":
+        return H.replay(ctx, rep)
     if "members" not in rep:
         return False, "replay names a broken obligation, not an input: " + payload.get("what", "")
     members = _de_members(rep["members"])
@@ -1156,5 +1178,10 @@ def known_witnesses(ctx):
         r = _check_archive(fmt, sub, members, ap, data, spec)
         ctx.count("witness/" + key + ("/fails" if r else "/holds"))
         if r:
+            # this process has a history by now: report the witness only if it fails as the only thing a fresh process reads
+            # (what --replay will do); a failure that needs the history is the session oracle's finding
+            if H.fails_fresh(_payload(fmt, sub, members, ap, spec)) is None:
+                ctx.count("witness/" + key + "/fails-only-after-history")
+                continue
             out.append(Violation(key, r[1], _payload(fmt, sub, members, ap, spec)))
-    return out
+    return out + H.known_witnesses(ctx)
